@@ -41,34 +41,34 @@ Lemma last_mode_irrel : forall pps d d', pps <> [] -> last_mode pps d = last_mod
 Proof. intros [|[m] r] d d' H; [congruence | reflexivity]. Qed.
 
 (* ------------------------------------------------------------------------------------------ *)
-(* the translated functions, characterised (the only lemmas that look inside them); they are    *)
-(* phrased so that they also hold if the gate is changed to reject directories                  *)
+(* the translated functions, characterised (the only lemmas that look inside them)              *)
 (* ------------------------------------------------------------------------------------------ *)
 Lemma SetFileMode_call_eq : forall e s m p, SetFileMode_call e s m p = (fs_chmod e s p m, p).
 Proof. intros; unfold SetFileMode_call; rewrite ?bind_ret; reflexivity. Qed.
 
-Ltac unfold_gate H :=
-  unfold handle_overwrite; cbv [bind fst snd]; unfold fs_exists, fs_is_dir, fs_st_mode; rewrite ?H; cbv [bind fst snd negb].
+Ltac unfold_gate H D :=
+  unfold handle_overwrite, fs_exists, fs_is_dir, fs_st_mode;
+  repeat (progress (rewrite ?H, ?D; cbv [bind fst snd negb andb])).
 
 Lemma handle_overwrite_absent : forall e s p a, s p = None -> handle_overwrite e s p a = (s, Ok).
-Proof. intros e s p a H. unfold_gate H. reflexivity. Qed.
+Proof. intros e s p a H. unfold_gate H H. reflexivity. Qed.
 
 Lemma handle_overwrite_refuse : forall e s p f, s p = Some f -> f_isdir f = false ->
   handle_overwrite e s p false = (s, Err EExists).
-Proof. intros e s p f H D. unfold_gate H. rewrite ?D. reflexivity. Qed.
+Proof. intros e s p f H D. unfold_gate H D. reflexivity. Qed.
 
 Lemma handle_overwrite_refuse_any : forall e s p f, s p = Some f ->
   exists er, handle_overwrite e s p false = (s, Err er).
-Proof. intros e s p f H. unfold_gate H. destruct (f_isdir f); eexists; reflexivity. Qed.
+Proof. intros e s p f H. destruct (f_isdir f) eqn:D; unfold_gate H D; eexists; reflexivity. Qed.
 
 Lemma handle_overwrite_allow : forall e s p f, s p = Some f -> f_isdir f = false ->
   handle_overwrite e s p true = fs_chmod e s p (N.lor (f_mode f) 144).
-Proof. intros e s p f H D. unfold_gate H. rewrite ?D. reflexivity. Qed.
+Proof. intros e s p f H D. unfold_gate H D. reflexivity. Qed.
 
-Lemma handle_overwrite_dir : forall e s p f, s p = Some f -> f_isdir f = true ->
-  handle_overwrite e s p true = fs_chmod e s p (N.lor (f_mode f) 144) \/
-  handle_overwrite e s p true = (s, Err EIsDir).
-Proof. intros e s p f H D. unfold_gate H. rewrite ?D. first [left; reflexivity | right; reflexivity]. Qed.
+(* a directory at the path is refused, whether or not overwriting is allowed (fix 7df01dd) *)
+Lemma handle_overwrite_dir : forall e s p f a, s p = Some f -> f_isdir f = true ->
+  exists er, handle_overwrite e s p a = (s, Err er).
+Proof. intros e s p f a H D. destruct a; unfold_gate H D; cbv [andb negb]; eexists; reflexivity. Qed.
 
 (* ------------------------------------------------------------------------------------------ *)
 (* the footprint relation: what any sequence of operations can do to a tree when it only        *)
@@ -192,7 +192,7 @@ Proof.
   intros T A p a Tp s. destruct (s p) as [f|] eqn:E.
   - destruct a.
     + destruct (f_isdir f) eqn:D.
-      * destruct (handle_overwrite_dir e s p f E D) as [H|H]; rewrite H; [now apply fs_chmod_rel | apply rel_refl].
+      * destruct (handle_overwrite_dir e s p f true E D) as [er H]; rewrite H; apply rel_refl.
       * rewrite (handle_overwrite_allow e s p f E D). now apply fs_chmod_rel.
     + destruct (handle_overwrite_refuse_any e s p f E) as [er H]. rewrite H. apply rel_refl.
   - rewrite handle_overwrite_absent by exact E. apply rel_refl.
@@ -618,29 +618,17 @@ Proof.
   - left. eauto.
 Qed.
 
-Lemma W_dir_nocopy : forall k s f, s p = Some f -> f_isdir f = true -> body c k = AOpenWrite -> snd (W k s) <> Ok.
+Lemma W_dir_refused : forall k s f, s p = Some f -> f_isdir f = true -> exists er, W k s = (s, Err er).
 Proof.
-  intros k s f E D Hb. destruct (c_allow c) eqn:Ha.
-  - open_writer. rewrite Ha, Hb. destruct (handle_overwrite_dir e s p f E D) as [H|H]; rewrite H.
-    + unfold fs_chmod. rewrite E. destruct (superuser e || f_owned f); ex; [|cbn; discriminate].
-      set (s1 := upd s p (set_mode f (N.land (N.lor (f_mode f) 144) 4095))).
-      pose proof (M_keeps_p s1) as Kp. unfold s1 at 2 in Kp. rewrite upd_same in Kp.
-      destruct (M s1) as [s2 [|er]]; cbn [fst] in Kp; ex; [|cbn; discriminate].
-      cbn [run_act]. unfold fs_write, fs_write_in. rewrite Kp. cbn [f_isdir set_mode]. rewrite D. ex. cbn; discriminate.
-    + ex. cbn; discriminate.
-  - destruct (W_refuse_any k s f E Ha) as [er H]. rewrite H. cbn; discriminate.
+  intros k s f E D. open_writer. destruct (handle_overwrite_dir e s p f (c_allow c) E D) as [er H]. rewrite H. ex. eauto.
 Qed.
 
-(* a successful write leaves the canonical file -- unless shutil.copy met a directory (the trigger) *)
-Lemma W_ok : forall k s s', W k s = (s', Ok) -> (is_copy (body c k) = true -> fs_is_dir s p = false) ->
-  exists own, written s' own.
+(* a successful write leaves the canonical regular file *)
+Lemma W_ok : forall k s s', W k s = (s', Ok) -> exists own, written s' own.
 Proof.
-  intros k s s' H Htr. destruct (s p) as [f|] eqn:E.
+  intros k s s' H. destruct (s p) as [f|] eqn:E.
   - destruct (f_isdir f) eqn:D.
-    + exfalso. destruct (is_copy (body c k)) eqn:Ic.
-      * specialize (Htr eq_refl). unfold fs_is_dir in Htr. rewrite E in Htr. congruence.
-      * apply (W_dir_nocopy k s f E D); [|now rewrite H].
-        unfold body in *. destruct k as [|[|]]; try reflexivity. destruct (c_linepps c); [reflexivity | discriminate].
+    + destruct (W_dir_refused k s f E D) as [er H1]. congruence.
     + destruct (c_allow c) eqn:Ha.
       * destruct (superuser e || f_owned f) eqn:Hp.
         -- destruct (W_overwrite k s f E D Ha Hp) as [[er [H1 _]]|[_ [s2 [H1 [H2 _]]]]]; [congruence|].
@@ -649,6 +637,90 @@ Proof.
       * rewrite (W_refuse k s f E D Ha) in H. discriminate.
   - destruct (W_absent k s E) as [[er [H1 _]]|[_ [_ [s2 [H1 [H2 _]]]]]]; [congruence|].
     rewrite H1 in H. injection H as <-. eauto.
+Qed.
+
+(* the fine footprint of one writer: only p itself and missing directories above it -- the gate has refused directories, so
+   shutil.copy never takes its into-the-directory branch *)
+Lemma W_rel_fine : forall k s, rel e (fun q => q = p) (fun q => In q (ancestors e p)) s (fst (W k s)).
+Proof.
+  intros k s.
+  assert (MR : forall s0, rel e (fun q => q = p) (fun q => In q (ancestors e p)) s0 (fst (M s0))).
+  { intros s0. apply (mkdirs_rel e (fun q => q = p) (fun q => In q (ancestors e p))). auto. }
+  assert (Fin : forall s2 s' own, written s' own -> meta_ok (s2 p) (Some (mkF 0 0 own false)) ->
+                (forall q, q <> p -> s' q = s2 q) -> rel e (fun q => q = p) (fun q => In q (ancestors e p)) s2 s').
+  { intros s2 s' own [f' [E' [_ [O' [D' _]]]]] Mk F q. destruct (N.eq_dec q p) as [->|Hq].
+    - rewrite E'. split; [intros X; now elim X | split].
+      + destruct (s2 p) as [f2|]; cbn in Mk |- *; [destruct Mk; split; congruence | congruence].
+      + intros _ f0 E0 D0. injection E0 as <-. congruence.
+    - rewrite F by exact Hq. exact (rel_refl e (fun q => q = p) (fun q => In q (ancestors e p)) s2 q). }
+  destruct (s p) as [f|] eqn:E.
+  - destruct (f_isdir f) eqn:D.
+    + destruct (W_dir_refused k s f E D) as [er H]. rewrite H. apply rel_refl.
+    + destruct (c_allow c) eqn:Ha.
+      * destruct (superuser e || f_owned f) eqn:Hp.
+        -- assert (G : rel e (fun q => q = p) (fun q => In q (ancestors e p)) s (gated s f)).
+           { unfold gated. apply rel_upd_T; [reflexivity | rewrite E; cbn; auto | congruence]. }
+           destruct (W_overwrite k s f E D Ha Hp) as [[er [H1 _]]|[_ [s2 [H1 [H2 H3]]]]]; rewrite H1; cbn [fst].
+           ++ eapply rel_trans; [exact G | apply MR].
+           ++ eapply rel_trans; [exact G|]. eapply rel_trans; [apply MR|].
+              apply (Fin _ s2 (f_owned f) H2); [|exact H3].
+              rewrite M_keeps_p. unfold gated. rewrite upd_same. cbn. auto.
+        -- rewrite (W_noperm k s f E D Ha Hp). apply rel_refl.
+      * rewrite (W_refuse k s f E D Ha). apply rel_refl.
+  - destruct (W_absent k s E) as [[er [H1 _]]|[_ [_ [s2 [H1 [H2 H3]]]]]]; rewrite H1; cbn [fst].
+    + apply MR.
+    + eapply rel_trans; [apply MR|]. apply (Fin _ s2 true H2); [|exact H3]. rewrite M_keeps_p, E. reflexivity.
+Qed.
+
+(* ... and of every prefix of its action list (an interrupted write) *)
+Lemma gate_ok_nodir : forall s s1 a, handle_overwrite e s p a = (s1, Ok) -> fs_is_dir s1 p = false.
+Proof.
+  intros s s1 a H. unfold fs_is_dir. destruct (s p) as [f|] eqn:E.
+  - destruct (f_isdir f) eqn:D.
+    + destruct (handle_overwrite_dir e s p f a E D) as [er H1]. congruence.
+    + destruct a.
+      * rewrite (handle_overwrite_allow e s p f E D) in H. unfold fs_chmod in H. rewrite E in H.
+        destruct (superuser e || f_owned f); [|discriminate]. injection H as <-. rewrite upd_same. exact D.
+      * rewrite (handle_overwrite_refuse e s p f E D) in H. discriminate.
+  - rewrite (handle_overwrite_absent e s p a E) in H. injection H as <-. now rewrite E.
+Qed.
+
+Lemma rel_bind_ok : forall (T A : path -> Prop) x k s,
+  rel e T A s (fst x) -> (snd x = Ok -> rel e T A (fst x) (fst (k (fst x)))) -> rel e T A s (fst (bind x k)).
+Proof.
+  intros T A [s1 r] k s H1 H2. unfold bind; cbn [fst snd] in *. destruct r; cbn [fst]; [|exact H1].
+  eapply rel_trans; [exact H1 | now apply H2].
+Qed.
+
+Lemma W_prefix_rel_fine : forall k j s,
+  rel e (fun q => q = p) (fun q => In q (ancestors e p)) s
+      (fst (run_acts render e c p (firstn j (flat_acts c k)) s)).
+Proof.
+  intros k j s. rewrite (flat_acts_shape c k Hd).
+  set (T := fun q => q = p). set (A := fun q => In q (ancestors e p)).
+  assert (TA : forall x, In x (ancestors e p) -> A x) by auto.
+  assert (Body : forall s2, fs_is_dir s2 p = false -> rel e T A s2 (fst (run_act render e c p (body c k) s2))).
+  { intros s2 P. unfold body. destruct k as [|[|]]; [| |destruct (c_linepps c)]; cbn [run_act];
+      try (apply (fs_write_in_rel e T A); reflexivity).
+    unfold fs_copy. rewrite P.
+    apply (rel_bind e T A (fun s => fs_write e s p (render s2 (c_amb c) (c_class c) p)) (fun s1 => fs_chmod e s1 p (c_resmode c))).
+    - intros s0. apply fs_write_in_rel. reflexivity.
+    - apply fs_chmod_rel. reflexivity. }
+  destruct j as [|[|[|[|j]]]]; cbn [firstn run_acts]; try apply rel_refl.
+  - rewrite bind_ret. apply (handle_overwrite_rel e T A p (c_allow c) eq_refl).
+  - apply rel_bind_ok; [apply (handle_overwrite_rel e T A p (c_allow c) eq_refl)|]. intros _. cbn [run_acts].
+    rewrite bind_ret. cbn [run_act]. now apply mkdirs_rel.
+  - apply rel_bind_ok; [apply (handle_overwrite_rel e T A p (c_allow c) eq_refl)|]. intros G1. cbn [run_acts].
+    apply rel_bind_ok; [cbn [run_act]; now apply mkdirs_rel|]. intros G2. cbn [run_acts]. rewrite bind_ret.
+    apply Body. cbn [run_act] in *. unfold fs_is_dir. rewrite M_keeps_p.
+    destruct (handle_overwrite e s p (c_allow c)) as [s1 r1] eqn:EH. cbn [fst snd] in *. subst r1. exact (gate_ok_nodir s s1 _ EH).
+  - replace (firstn j []) with (@nil act) by (now destruct j). cbn [run_acts].
+    apply rel_bind_ok; [apply (handle_overwrite_rel e T A p (c_allow c) eq_refl)|]. intros G1. cbn [run_acts].
+    apply rel_bind_ok; [cbn [run_act]; now apply mkdirs_rel|]. intros G2. cbn [run_acts].
+    apply rel_bind_ok.
+    + apply Body. cbn [run_act] in *. unfold fs_is_dir. rewrite M_keeps_p.
+      destruct (handle_overwrite e s p (c_allow c)) as [s1 r1] eqn:EH. cbn [fst snd] in *. subst r1. exact (gate_ok_nodir s s1 _ EH).
+    + intros _. cbn [run_acts]. apply rel_bind_ok; [cbn [run_act]; now apply run_filepps_rel | intros _; cbn [run_acts fst]; apply rel_refl].
 Qed.
 
 (* with the chain ready, writing succeeds *)
@@ -690,30 +762,67 @@ Hypothesis Hwf : env_wf e.
 Notation WL c := (run_list (write_item render e c)).
 Notation Rn c p := (render empty_fs 0 (c_class c) p).
 
-Definition no_dir_copy (c : cfg) (s : fs) : Prop := forall p, In p (copy_targets c) -> fs_is_dir s p = false.
-Definition copy_not_anc (c : cfg) : Prop := forall p, In p (copy_targets c) -> ~ anc e c p.
+Definition tgt (c : cfg) (q : path) : Prop := In q (targets c).
 (* what a configuration needs as a directory it (or another one) never writes as a file, and vice versa *)
 Definition compatible (c c' : cfg) : Prop :=
-  (forall q, anc e c q -> ~ touch e c' q) /\ (forall q, anc e c' q -> ~ touch e c q).
+  (forall q, anc e c q -> ~ tgt c' q) /\ (forall q, anc e c' q -> ~ tgt c q).
 
-Lemma no_dir_copy_bool : forall c s, dir_at_copy_target c s = false -> no_dir_copy c s.
+(* ---- the fine footprint: targets and missing directories above them, nothing else ---- *)
+Lemma write_item_rel_fine : forall c it, In it (items c) -> rel_fn e (tgt c) (anc e c) (fun s => write_item render e c s it).
 Proof.
-  intros c s H p Hp. unfold dir_at_copy_target in H. destruct (fs_is_dir s p) eqn:D; [|reflexivity].
-  assert (X : existsb (fun p => fs_is_dir s p) (copy_targets c) = true) by (apply existsb_exists; eauto). congruence.
+  intros c [p k] H s. destruct (c_dryrun c) eqn:Hd.
+  - rewrite W_dry by exact Hd. apply rel_refl.
+  - eapply rel_weaken; [| |apply (W_rel_fine render e Hind Hwf c p Hd k s)].
+    + intros q ->. unfold tgt, targets. now apply (in_map fst _ (p, k)).
+    + intros q Hq. now apply (item_anc e c (p, k)).
 Qed.
 
-Lemma compatible_copy_not_anc : forall c, compatible c c -> copy_not_anc c.
+Lemma write_item_prefix_rel_fine : forall c it j, In it (items c) ->
+  rel_fn e (tgt c) (anc e c) (run_acts render e c (fst it) (firstn j (flat_acts c (snd it)))).
 Proof.
-  intros c [H _] p Hp Ha. apply (H p Ha). left. unfold copy_targets in Hp. unfold targets.
-  apply in_map_iff in Hp. destruct Hp as [it [<- Hit]]. apply filter_In in Hit. apply in_map. tauto.
+  intros c [p k] j H s. cbn [fst snd]. destruct (c_dryrun c) eqn:Hd.
+  - rewrite flat_acts_dry by exact Hd. replace (firstn j []) with (@nil act) by (now destruct j). apply rel_refl.
+  - eapply rel_weaken; [| |apply (W_prefix_rel_fine render e Hwf c p Hd k j s)].
+    + intros q ->. unfold tgt, targets. now apply (in_map fst _ (p, k)).
+    + intros q Hq. now apply (item_anc e c (p, k)).
 Qed.
 
-Lemma no_dir_copy_rel : forall c T s s', rel e T (anc e c) s s' -> copy_not_anc c -> no_dir_copy c s -> no_dir_copy c s'.
+Lemma sublist_rel_fine : forall c l, (forall it, In it l -> In it (items c)) ->
+  rel_fn e (tgt c) (anc e c) (fun s => WL c s l).
+Proof. intros c l H. apply run_list_rel. intros it Hit. apply write_item_rel_fine. auto. Qed.
+
+Lemma step_rel_fine : forall c, rel_fn e (tgt c) (anc e c) (fun s => step render e s c).
+Proof. intros c s. rewrite step_flat. now apply sublist_rel_fine. Qed.
+
+Lemma step_crash_rel_fine : forall c n j junk s, rel e (tgt c) (anc e c) s (step_crash render e s c n j junk).
 Proof.
-  intros c T s s' R Hn H p Hp. specialize (H p Hp). unfold fs_is_dir in *. destruct (R p) as [_ [M C]].
-  destruct (s' p) as [f'|] eqn:E'; [|reflexivity]. destruct (s p) as [f|] eqn:E; cbn in M.
-  - destruct M as [_ M]. congruence.
-  - destruct (f_isdir f') eqn:D; [|reflexivity]. exfalso. apply (Hn p Hp). now apply (C eq_refl f').
+  intros c n j junk s. unfold step_crash.
+  assert (R1 : rel e (tgt c) (anc e c) s (fst (WL c s (firstn n (items c))))).
+  { apply sublist_rel_fine. intros it. apply incl_firstn. }
+  destruct (snd (WL c s (firstn n (items c)))); [|exact R1].
+  destruct (nth_error (items c) n) as [it|] eqn:E; [|exact R1].
+  apply nth_error_In in E.
+  assert (R2 : rel e (tgt c) (anc e c) s
+                 (fst (run_acts render e c (fst it) (firstn j (flat_acts c (snd it))) (fst (WL c s (firstn n (items c))))))).
+  { eapply rel_trans; [exact R1|]. apply (write_item_prefix_rel_fine c it j E). }
+  destruct (snd (run_acts render e c (fst it) (firstn j (flat_acts c (snd it))) (fst (WL c s (firstn n (items c)))))); [|exact R2].
+  destruct junk as [g|]; [|exact R2].
+  eapply rel_trans; [exact R2|].
+  apply (fs_write_in_rel e (tgt c) (anc e c) (parent_of e (fst it)) (fst it) g). unfold tgt, targets. now apply in_map.
+Qed.
+
+Definition tgt_h (h : list event) (q : path) : Prop := exists ev, In ev h /\ tgt (ev_cfg ev) q.
+
+Lemma event_rel_fine : forall ev s, rel e (tgt (ev_cfg ev)) (anc e (ev_cfg ev)) s (apply_event render e s ev).
+Proof. intros [c|c n j junk] s; cbn [apply_event ev_cfg]; [apply step_rel_fine | apply step_crash_rel_fine]. Qed.
+
+Lemma history_rel_fine : forall h s, rel e (tgt_h h) (anc_h e h) s (history render e s h).
+Proof.
+  induction h as [|ev r IH]; intros s; cbn [history fold_left].
+  - apply rel_refl.
+  - eapply rel_trans.
+    + eapply rel_weaken; [| |apply (event_rel_fine ev s)]; intros q Hq; exists ev; split; auto; now left.
+    + eapply rel_weaken; [| |apply IH]; intros q [ev' [Hc Hq]]; exists ev'; split; auto; now right.
 Qed.
 
 Lemma mkdirs_keeps : forall l prev s q, s q <> None -> fst (mkdirs e prev l s) q = s q.
@@ -722,70 +831,37 @@ Proof.
   destruct (X (fun f => f)) as [Y|[_ [Y _]]]; [exact Y | congruence].
 Qed.
 
-(* a successful write of p (not through a directory) changes no other existing entry *)
+(* a successful write of p changes no other existing entry *)
 Lemma W_frame_ok : forall c p k s s', c_dryrun c = false -> write_item render e c s (p, k) = (s', Ok) ->
-  (is_copy (body c k) = true -> fs_is_dir s p = false) ->
   forall q, q <> p -> s q <> None -> s' q = s q.
 Proof.
-  intros c p k s s' Hd H Htr q Hq Hs. destruct (s p) as [f|] eqn:E.
-  - destruct (f_isdir f) eqn:D.
-    + exfalso. destruct (is_copy (body c k)) eqn:Ic.
-      * specialize (Htr eq_refl). unfold fs_is_dir in Htr. rewrite E in Htr. congruence.
-      * apply (W_dir_nocopy render e Hwf c p Hd k s f E D); [|now rewrite H].
-        unfold body in *. destruct k as [|[|]]; try reflexivity. destruct (c_linepps c); [reflexivity | discriminate].
-    + destruct (c_allow c) eqn:Ha.
-      * destruct (superuser e || f_owned f) eqn:Hp.
-        -- destruct (W_overwrite render e Hind Hwf c p Hd k s f E D Ha Hp) as [[er [H1 _]]|[_ [s2 [H1 [_ H3]]]]]; [congruence|].
-           rewrite H1 in H. injection H as <-. rewrite H3 by exact Hq.
-           rewrite mkdirs_keeps; unfold gated; rewrite upd_other by exact Hq; auto.
-        -- rewrite (W_noperm render e c p Hd k s f E D Ha Hp) in H. discriminate.
-      * rewrite (W_refuse render e c p Hd k s f E D Ha) in H. discriminate.
-  - destruct (W_absent render e Hind Hwf c p Hd k s E) as [[er [H1 _]]|[_ [_ [s2 [H1 [_ H3]]]]]]; [congruence|].
-    rewrite H1 in H. injection H as <-. rewrite H3 by exact Hq. now apply mkdirs_keeps.
+  intros c p k s s' Hd H q Hq Hs.
+  replace s' with (fst (write_item render e c s (p, k))) by now rewrite H.
+  destruct (W_rel_fine render e Hind Hwf c p Hd k s q) as [F _]. destruct (F Hq) as [X|[_ [X _]]]; [exact X | congruence].
 Qed.
 
-Lemma copy_target_in : forall c it, In it (items c) -> c_dryrun c = false -> is_copy (body c (snd it)) = true -> In (fst it) (copy_targets c).
+Lemma list_frame_ok : forall c, c_dryrun c = false -> forall l s s',
+  WL c s l = (s', Ok) -> forall q, ~ In q (map fst l) -> s q <> None -> s' q = s q.
 Proof.
-  intros c it H Hd Hc. unfold copy_targets. apply in_map. apply filter_In. split; [exact H|]. now rewrite copies_body.
-Qed.
-
-Lemma list_frame_ok : forall c, c_dryrun c = false -> copy_not_anc c -> forall l s s',
-  (forall it, In it l -> In it (items c)) -> no_dir_copy c s -> WL c s l = (s', Ok) ->
-  forall q, ~ In q (map fst l) -> s q <> None -> s' q = s q.
-Proof.
-  intros c Hd Hn l. induction l as [|[p0 k] r IH]; intros s s' Hsub Hnd H q Hq Hs; cbn [run_list map fst] in *.
+  intros c Hd l. induction l as [|[p0 k] r IH]; intros s s' H q Hq Hs; cbn [run_list map fst] in *.
   - injection H as <-. reflexivity.
   - apply bind_ok in H. destruct H as [s1 [H1 H2]].
-    assert (Hit : In (p0, k) (items c)) by (apply Hsub; now left).
     assert (E1 : s1 q = s q).
-    { apply (W_frame_ok c p0 k s s1 Hd H1);
-        [intros Hc; apply Hnd; now apply (copy_target_in c (p0, k)) | intros ->; apply Hq; now left | exact Hs]. }
-    rewrite <- E1. apply (IH s1 s').
-    + intros it Hi. apply Hsub. now right.
-    + eapply no_dir_copy_rel; [|exact Hn|exact Hnd].
-      replace s1 with (fst (write_item render e c s (p0, k))) by now rewrite H1. now apply write_item_rel.
-    + exact H2.
-    + intros X. apply Hq. now right.
-    + congruence.
+    { apply (W_frame_ok c p0 k s s1 Hd H1); [intros ->; apply Hq; now left | exact Hs]. }
+    rewrite <- E1. apply (IH s1 s' H2); [intros X; apply Hq; now right | congruence].
 Qed.
 
-Lemma list_canonical : forall c, c_dryrun c = false -> copy_not_anc c -> forall l s s' p,
-  (forall it, In it l -> In it (items c)) -> no_dir_copy c s -> WL c s l = (s', Ok) -> In p (map fst l) ->
+Lemma list_canonical : forall c, c_dryrun c = false -> forall l s s' p,
+  WL c s l = (s', Ok) -> In p (map fst l) ->
   exists f', s' p = Some f' /\ f_cid f' = Rn c p /\ f_isdir f' = false /\
              (c_filepps c <> [] -> f_mode f' = last_mode (c_filepps c) 0).
 Proof.
-  intros c Hd Hn l. induction l as [|[p0 k] r IH]; intros s s' p Hsub Hnd H Hin; cbn [run_list map fst] in *; [contradiction|].
+  intros c Hd l. induction l as [|[p0 k] r IH]; intros s s' p H Hin; cbn [run_list map fst] in *; [contradiction|].
   apply bind_ok in H. destruct H as [s1 [H1 H2]].
-  assert (Hit : In (p0, k) (items c)) by (apply Hsub; now left).
-  assert (Hnd1 : no_dir_copy c s1).
-  { eapply no_dir_copy_rel; [|exact Hn|exact Hnd].
-    replace s1 with (fst (write_item render e c s (p0, k))) by now rewrite H1. now apply write_item_rel. }
-  assert (Hsub' : forall it, In it r -> In it (items c)) by (intros it Hi; apply Hsub; now right).
   destruct (in_dec N.eq_dec p (map fst r)) as [Hr|Hr].
   - eapply IH; eauto.
   - destruct Hin as [<-|Hin]; [|contradiction].
     destruct (W_ok render e Hind Hwf c p0 Hd k s s1 H1) as [own [f' [E [C [_ [D M]]]]]].
-    { intros Hc. apply Hnd. now apply (copy_target_in c (p0, k)). }
     exists f'. rewrite <- E. split; [|auto].
     eapply list_frame_ok; eauto. congruence.
 Qed.
@@ -805,27 +881,29 @@ Proof.
   - destruct (W_refuse_any render e c p0 Hd k s f E Ha) as [er H]. rewrite H. reflexivity.
   - assert (Hne : q <> p0) by congruence.
     assert (F : fst (write_item render e c s (p0, k)) q = s q).
-    { destruct (W_absent render e Hind Hwf c p0 Hd k s E) as [[er [H1 _]]|[_ [_ [s2 [H1 [_ H3]]]]]]; rewrite H1; cbn [fst].
-      - now apply mkdirs_keeps.
-      - rewrite H3 by exact Hne. now apply mkdirs_keeps. }
+    { destruct (W_rel_fine render e Hind Hwf c p0 Hd k s q) as [X _]. destruct (X Hne) as [Y|[_ [Y _]]]; [exact Y | congruence]. }
     destruct (write_item render e c s (p0, k)) as [s1 [|er]]; cbn [fst] in F.
     + rewrite bind_pair_ok. rewrite IH by congruence. exact F.
     + rewrite bind_pair_err. exact F.
 Qed.
 
-Lemma list_noov_conflict_fails : forall c, c_dryrun c = false -> c_allow c = false -> forall l s,
+(* a run that reaches an existing entry it may not replace fails: --no-overwrite conflicts, and directories always *)
+Lemma list_blocked_fails : forall c, c_dryrun c = false -> forall l s,
   (forall it, In it l -> In it (items c)) ->
-  (exists p, In p (map fst l) /\ s p <> None) -> snd (WL c s l) <> Ok.
+  (exists p f, In p (map fst l) /\ s p = Some f /\ (c_allow c = false \/ f_isdir f = true)) -> snd (WL c s l) <> Ok.
 Proof.
-  intros c Hd Ha l. induction l as [|[p0 k] r IH]; intros s Hsub [p [Hin Hp]]; cbn [run_list map fst] in *; [contradiction|].
-  destruct (s p0) as [f|] eqn:E.
-  - destruct (W_refuse_any render e c p0 Hd k s f E Ha) as [er H]. rewrite H. discriminate.
+  intros c Hd l. induction l as [|[p0 k] r IH]; intros s Hsub [p [f [Hin [Hp Hb]]]]; cbn [run_list map fst] in *; [contradiction|].
+  assert (Hit : In (p0, k) (items c)) by (apply Hsub; now left).
+  assert (Stop : forall f0, s p0 = Some f0 -> (c_allow c = false \/ f_isdir f0 = true) -> exists er, write_item render e c s (p0, k) = (s, Err er)).
+  { intros f0 E0 [Ha|D]; [now apply (W_refuse_any render e c p0 Hd k s f0) | now apply (W_dir_refused render e c p0 Hd k s f0)]. }
+  destruct (N.eq_dec p p0) as [->|Hne].
+  - destruct (Stop f Hp Hb) as [er H]. rewrite H. discriminate.
   - destruct Hin as [->|Hin]; [congruence|].
-    assert (Hit : In (p0, k) (items c)) by (apply Hsub; now left).
-    pose proof (write_item_rel render e c (p0, k) Hit s p) as [_ [Mk _]]. cbn [fst] in Mk.
+    destruct (write_item_rel_fine c (p0, k) Hit s p) as [_ [Mk _]]. cbn [fst] in Mk.
     destruct (write_item render e c s (p0, k)) as [s1 [|er]]; cbn [fst] in Mk.
-    + rewrite bind_pair_ok. apply IH; [intros it Hi; apply Hsub; now right|]. exists p. split; [exact Hin|].
-      destruct (s p); [|congruence]. destruct (s1 p); [congruence | contradiction].
+    + rewrite bind_pair_ok. apply IH; [intros it Hi; apply Hsub; now right|].
+      rewrite Hp in Mk. destruct (s1 p) as [f1|] eqn:E1; cbn in Mk; [|contradiction].
+      exists p, f1. split; [exact Hin|]. split; [exact E1|]. destruct Hb as [Ha|D]; [now left | right; destruct Mk; congruence].
     + rewrite bind_pair_err. discriminate.
 Qed.
 
@@ -838,17 +916,17 @@ Proof.
   assert (Hit : In (p0, k) (items c)) by (apply Hsub; now left).
   destruct (W_total render e Hind Hwf c p0 Hd k s Ha (Hr p0 (or_introl eq_refl)) (Hch p0)) as [s1 [own [H1 _]]].
   rewrite H1, bind_pair_ok.
-  assert (Rl : rel e (touch e c) (anc e c) s s1).
-  { replace s1 with (fst (write_item render e c s (p0, k))) by now rewrite H1. now apply write_item_rel. }
+  assert (Rl : rel e (tgt c) (anc e c) s s1).
+  { replace s1 with (fst (write_item render e c s (p0, k))) by now rewrite H1. now apply write_item_rel_fine. }
   apply IH.
   - intros it Hi. apply Hsub. now right.
   - eapply rel_chmodable; eauto.
   - intros p Hp. assert (Hpi : exists it, In it (items c) /\ fst it = p).
     { apply in_map_iff in Hp. destruct Hp as [it [<- Hi]]. exists it. split; [apply Hsub; now right | reflexivity]. }
     destruct Hpi as [it [Hi <-]].
-    apply (ready_preserved e (touch e c) (anc e c) s s1 (fst it) Rl).
+    apply (ready_preserved e (tgt c) (anc e c) s s1 (fst it) Rl).
     + intros q Hq. apply (proj1 Hc). eapply item_anc; eauto.
-    + intros Ha'. apply (proj1 Hc _ Ha'). now apply item_touch.
+    + intros Ha'. apply (proj1 Hc _ Ha'). unfold tgt, targets. now apply in_map.
     + apply Hr. right. exact Hp.
 Qed.
 End Run.
@@ -865,92 +943,74 @@ Hypothesis Hwf : env_wf e.
 Notation STEP := (step render e).
 Notation HIST := (history render e).
 
-Lemma sub_refl : forall c it, In it (items c) -> In it (items c).
-Proof. auto. Qed.
-
 (* any state -- in particular the state after any history of runs and crashes *)
 Lemma canonical_any_state : forall s c p,
-  c_dryrun c = false -> c_filepps c <> [] -> copy_not_anc e c -> dir_at_copy_target c s = false ->
-  snd (STEP s c) = Ok -> In p (targets c) ->
+  c_dryrun c = false -> c_filepps c <> [] -> snd (STEP s c) = Ok -> In p (targets c) ->
   obs (fst (STEP s c) p) = canonical render e c p.
 Proof.
-  intros s c p Hd Hpp Hn Htr Hok Hin. rewrite step_flat in *.
+  intros s c p Hd Hpp Hok Hin. rewrite step_flat in *.
   destruct (run_list (write_item render e c) s (items c)) as [s' r] eqn:H. cbn [fst snd] in *. subst r.
-  destruct (list_canonical render e Hind Hwf c Hd Hn (items c) s s' p (sub_refl c) (no_dir_copy_bool c s Htr) H Hin)
-    as [f' [E [C [_ M]]]].
+  destruct (list_canonical render e Hind Hwf c Hd (items c) s s' p H Hin) as [f' [E [C [_ M]]]].
   rewrite E. unfold obs, canonical. rewrite C, (M Hpp). f_equal. f_equal. now apply last_mode_irrel.
 Qed.
 
 Lemma content_any_state : forall s c p,
-  c_dryrun c = false -> copy_not_anc e c -> dir_at_copy_target c s = false ->
-  snd (STEP s c) = Ok -> In p (targets c) ->
+  c_dryrun c = false -> snd (STEP s c) = Ok -> In p (targets c) ->
   exists f, fst (STEP s c) p = Some f /\ f_isdir f = false /\ f_cid f = render empty_fs 0 (c_class c) p.
 Proof.
-  intros s c p Hd Hn Htr Hok Hin. rewrite step_flat in *.
+  intros s c p Hd Hok Hin. rewrite step_flat in *.
   destruct (run_list (write_item render e c) s (items c)) as [s' r] eqn:H. cbn [fst snd] in *. subst r.
-  destruct (list_canonical render e Hind Hwf c Hd Hn (items c) s s' p (sub_refl c) (no_dir_copy_bool c s Htr) H Hin)
-    as [f' [E [C [D _]]]]. eauto.
+  destruct (list_canonical render e Hind Hwf c Hd (items c) s s' p H Hin) as [f' [E [C [D _]]]]. eauto.
 Qed.
 
-Lemma empty_no_dir : forall c, dir_at_copy_target c empty_fs = false.
-Proof. intros c. unfold dir_at_copy_target. induction (copy_targets c); cbn; auto. Qed.
-
 Theorem regen_equals_fresh : forall h s0 c p,
-  c_dryrun c = false -> c_filepps c <> [] -> copy_not_anc e c -> dir_at_copy_target c (HIST s0 h) = false ->
+  c_dryrun c = false -> c_filepps c <> [] ->
   snd (STEP (HIST s0 h) c) = Ok -> snd (STEP empty_fs c) = Ok -> In p (targets c) ->
   obs (fst (STEP (HIST s0 h) c) p) = obs (fst (STEP empty_fs c) p).
 Proof.
-  intros h s0 c p Hd Hpp Hn Htr H1 H2 Hin.
-  rewrite (canonical_any_state (HIST s0 h) c p Hd Hpp Hn Htr H1 Hin).
-  now rewrite (canonical_any_state empty_fs c p Hd Hpp Hn (empty_no_dir c) H2 Hin).
+  intros h s0 c p Hd Hpp H1 H2 Hin.
+  rewrite (canonical_any_state (HIST s0 h) c p Hd Hpp H1 Hin).
+  now rewrite (canonical_any_state empty_fs c p Hd Hpp H2 Hin).
 Qed.
 
 (* ---- footprint ---- *)
 Theorem written_in_footprint : forall s c q, fst (STEP s c) q <> s q ->
-  In q (targets c) \/ In q (child_targets e c) \/
-  (In q (dir_targets e c) /\ s q = None /\ fst (STEP s c) q = Some (new_dir e)).
+  In q (targets c) \/ (In q (dir_targets e c) /\ s q = None /\ fst (STEP s c) q = Some (new_dir e)).
 Proof.
-  intros s c q H. destruct (in_dec N.eq_dec q (targets c)) as [X|X]; [now left|].
-  destruct (in_dec N.eq_dec q (child_targets e c)) as [Y|Y]; [right; now left|].
-  right; right. destruct (step_rel render e c s q) as [F _].
-  destruct F as [F|F]; [intros [Z|Z]; contradiction | contradiction | exact F].
-Qed.
-
-Theorem foreign_untouched : forall s c q,
-  ~ In q (targets c) -> ~ In q (child_targets e c) -> (s q <> None \/ ~ In q (dir_targets e c)) ->
-  fst (STEP s c) q = s q.
-Proof.
-  intros s c q X Y Z. destruct (step_rel render e c s q) as [F _].
-  destruct F as [F|[A [N _]]]; [intros [W|W]; contradiction | exact F |]. destruct Z; [congruence | contradiction].
+  intros s c q H. destruct (in_dec N.eq_dec q (targets c)) as [X|X]; [now left|]. right.
+  destruct (step_rel_fine render e Hind Hwf c s q) as [F _]. destruct (F X) as [Y|Y]; [contradiction | exact Y].
 Qed.
 
 Theorem foreign_event : forall s ev q,
-  ~ In q (targets (ev_cfg ev)) -> ~ In q (child_targets e (ev_cfg ev)) ->
-  (s q <> None \/ ~ In q (dir_targets e (ev_cfg ev))) -> apply_event render e s ev q = s q.
+  ~ In q (targets (ev_cfg ev)) -> (s q <> None \/ ~ In q (dir_targets e (ev_cfg ev))) -> apply_event render e s ev q = s q.
 Proof.
-  intros s ev q X Y Z. destruct (event_rel render e ev s q) as [F _].
-  destruct F as [F|[A [N _]]]; [intros [W|W]; contradiction | exact F |]. destruct Z; [congruence | contradiction].
+  intros s ev q X Z. destruct (event_rel_fine render e Hind Hwf ev s q) as [F _].
+  destruct (F X) as [Y|[A [N _]]]; [exact Y|]. destruct Z; [congruence | contradiction].
 Qed.
 
+Theorem foreign_untouched : forall s c q,
+  ~ In q (targets c) -> (s q <> None \/ ~ In q (dir_targets e c)) -> fst (STEP s c) q = s q.
+Proof. intros s c. exact (foreign_event s (Run c)). Qed.
+
 Theorem history_foreign : forall h s q,
-  (forall ev, In ev h -> ~ In q (targets (ev_cfg ev)) /\ ~ In q (child_targets e (ev_cfg ev))) ->
+  (forall ev, In ev h -> ~ In q (targets (ev_cfg ev))) ->
   (s q <> None \/ forall ev, In ev h -> ~ In q (dir_targets e (ev_cfg ev))) ->
   HIST s h q = s q.
 Proof.
-  intros h s q X Z. destruct (history_rel render e h s q) as [F _].
+  intros h s q X Z. destruct (history_rel_fine render e Hind Hwf h s q) as [F _].
   destruct F as [F|[[ev [Hev A]] [N _]]].
-  - intros [ev [Hev [W|W]]]; destruct (X ev Hev); contradiction.
+  - intros [ev [Hev W]]. exact (X ev Hev W).
   - exact F.
   - destruct Z as [Z|Z]; [congruence | exfalso; exact (Z ev Hev A)].
 Qed.
 
 Theorem foreign_dirs_only : forall h s q,
-  (forall ev, In ev h -> ~ In q (targets (ev_cfg ev)) /\ ~ In q (child_targets e (ev_cfg ev))) ->
+  (forall ev, In ev h -> ~ In q (targets (ev_cfg ev))) ->
   HIST s h q = s q \/ (s q = None /\ HIST s h q = Some (new_dir e)).
 Proof.
-  intros h s q X. destruct (history_rel render e h s q) as [F _].
+  intros h s q X. destruct (history_rel_fine render e Hind Hwf h s q) as [F _].
   destruct F as [F|[_ [N F]]]; [|now left | right; auto].
-  intros [ev [Hev [W|W]]]; destruct (X ev Hev); contradiction.
+  intros [ev [Hev W]]. exact (X ev Hev W).
 Qed.
 
 (* ---- no overwrite ---- *)
@@ -976,7 +1036,27 @@ Qed.
 Theorem no_overwrite_conflict_fails : forall s c,
   c_dryrun c = false -> c_allow c = false ->
   (exists p, In p (targets c) /\ s p <> None) -> snd (STEP s c) <> Ok.
-Proof. intros s c Hd Ha H. rewrite step_flat. apply (list_noov_conflict_fails render e c Hd Ha); auto. Qed.
+Proof.
+  intros s c Hd Ha [p [Hin Hp]]. rewrite step_flat. apply (list_blocked_fails render e Hind Hwf c Hd); auto.
+  destruct (s p) as [f|] eqn:E; [|congruence]. exists p, f. auto.
+Qed.
+
+(* a directory at the path of a file to generate is never written into, chmod-ed or replaced: the run fails (fix 7df01dd) *)
+Theorem directory_at_target_fails : forall s c,
+  c_dryrun c = false -> (exists p, In p (targets c) /\ fs_is_dir s p = true) -> snd (STEP s c) <> Ok.
+Proof.
+  intros s c Hd [p [Hin Hp]]. rewrite step_flat. apply (list_blocked_fails render e Hind Hwf c Hd); auto.
+  unfold fs_is_dir in Hp. destruct (s p) as [f|] eqn:E; [|discriminate]. exists p, f. auto.
+Qed.
+
+Theorem directory_at_target_kept : forall s ev q f, s q = Some f -> f_isdir f = true ->
+  exists f', apply_event render e s ev q = Some f' /\ f_isdir f' = true /\ f_owned f' = f_owned f /\
+             (~ In q (targets (ev_cfg ev)) -> f' = f).
+Proof.
+  intros s ev q f E D. pose proof (event_rel_fine render e Hind Hwf ev s) as Rl.
+  destruct (rel_keeps_kind render e _ _ _ _ q f Rl E) as [f' [E' [D' O']]]. exists f'. repeat split; auto; [congruence|].
+  intros X. destruct (Rl q) as [F _]. destruct (F X) as [Y|[_ [Y _]]]; congruence.
+Qed.
 
 Theorem dry_run_inert : forall s c, c_dryrun c = true -> STEP s c = (s, Ok).
 Proof. intros s c Hd. rewrite step_flat. now apply list_dry. Qed.
@@ -989,13 +1069,13 @@ Theorem regen_total_history : forall h s0 c,
   snd (STEP (HIST s0 h) c) = Ok.
 Proof.
   intros h s0 c Hch Hr Hcc Hch' Ha Hd. rewrite step_flat.
-  pose proof (history_rel render e h s0) as Rl.
+  pose proof (history_rel_fine render e Hind Hwf h s0) as Rl.
   apply (list_total render e Hind Hwf c Hd Ha Hcc); auto.
   - eapply rel_chmodable; eauto.
   - intros p Hp. apply (ready_preserved e _ _ s0 _ p Rl).
     + intros q Hq [ev [Hev Ht]]. apply (proj1 (Hch' ev Hev) q); [|exact Ht].
       unfold anc, dir_targets. apply in_flat_map. eauto.
-    + intros [ev [Hev Han]]. apply (proj2 (Hch' ev Hev) p Han). now left.
+    + intros [ev [Hev Han]]. exact (proj2 (Hch' ev Hev) p Han Hp).
     + now apply Hr.
 Qed.
 
@@ -1044,23 +1124,4 @@ Theorem foreign_unconditional_refuted :
   exists e s c q, ~ In q (targets c) /\ snd (step wit_render e s c) = Ok /\ fst (step wit_render e s c) q <> s q.
 Proof.
   exists (wit_env false), empty_fs, (wit_cfg true false [4] []), 1. vm_compute. repeat split; try discriminate. intuition discriminate.
-Qed.
-
-(* (a) of the audit: shutil.copy onto a directory.  Whether the code of /repo still behaves like this is computed from the
-   translated model: if the gate is changed to reject directories the premise is false and the statement is vacuous. *)
-Definition wit_dir_fs : fs := upd (upd empty_fs 1 (mkF 0 493 true true)) 2 (mkF 0 493 true true).
-Definition copy_into_dir_quirk : bool :=
-  is_ok (snd (step wit_render (wit_env false) wit_dir_fs (wit_cfg true false [] [(2, false)]))).
-
-Theorem copy_into_directory_refuted : copy_into_dir_quirk = true ->
-  exists e s c p, c_dryrun c = false /\ c_filepps c <> [] /\ In p (targets c) /\ dir_at_copy_target c s = true /\
-    snd (step wit_render e s c) = Ok /\
-    fs_is_dir (fst (step wit_render e s c)) p = true /\                      (* the "generated file" is still a directory ... *)
-    obs (fst (step wit_render e s c) p) = Some (0, 292) /\                   (* ... now with the mode requested for the file *)
-    ~ In (child e p) (targets c) /\ s (child e p) = None /\
-    obs (fst (step wit_render e s c) (child e p)) = Some (1070002, 416).     (* and a non-target appeared inside it *)
-Proof.
-  unfold copy_into_dir_quirk. intros H.
-  exists (wit_env false), wit_dir_fs, (wit_cfg true false [] [(2, false)]), 2.
-  vm_compute in H. first [discriminate H | clear H; vm_compute; intuition (try discriminate; try reflexivity)].
 Qed.
